@@ -452,6 +452,17 @@ func simRun(t *testing.T, fn func() *verifkit.Failure) (res *verifkit.Failure) {
 		}
 	}()
 	defer close(done)
+	defer func() {
+		// a bubble whose scenario returned while goroutines are still blocked panics in synctest.Test; the scenario's
+		// own failure (usually the goroutine-leak report of stop) is the better message
+		if r := recover(); r != nil {
+			if inner != nil {
+				res = inner
+				return
+			}
+			res = &verifkit.Failure{Sig: "panic", Msg: fmt.Sprintf("panic after the scenario: %v", r)}
+		}
+	}()
 	synctest.Test(t, func(t *testing.T) {
 		defer func() {
 			if r := recover(); r != nil {
